@@ -18,6 +18,17 @@
 // Initialisation: pthread_mutex_init / pthread_cond_init / sem_init (and the destroy calls) are wrapped and
 // recorded; registering a primitive of a library object that was never initialised is reported (vs_uninit).
 //
+// Entry points OUTSIDE Sched.v (round 5): pthread_mutex_timedlock / clocklock, pthread_cond_clockwait, sem_clockwait,
+// pthread_tryjoin_np / timedjoin_np / clockjoin_np are wrapped too, so that code rewritten onto them still runs on the
+// VIRTUAL primitives (a call that reached the real glibc object would be judged against an object no virtual thread
+// ever holds).  They are the timed variants of the modelled calls: a timed lock = lock that returns ETIMEDOUT once its
+// deadline has passed and the mutex is not available (glibc order: acquire first, then EINVAL, then the deadline); the
+// clock* forms carry their own clock id.  The Coq model has none of them: the pending-call token they print
+// (`lock2@0.0`, `cw0.0@..%1`, `tjoin1`) differs from anything the model prints, so their use is always visible as a
+// model/implementation difference, while the history/state oracle still judges the library calls' results.
+// pthread_create has TWO scheduling points: the create itself and, after it succeeded, the return to the creator
+// (model: ThStartP / ThStartRet) - the child may run before the creator's code that follows pthread_create.
+//
 // C headers only; C interface in sync_sched.h.
 #include <pthread.h>
 #include <semaphore.h>
@@ -52,6 +63,13 @@ int __real_sem_init(sem_t*, int, unsigned);
 int __real_sem_destroy(sem_t*);
 int __real_pthread_create(pthread_t*, const pthread_attr_t*, void* (*)(void*), void*);
 int __real_pthread_join(pthread_t, void**);
+int __real_pthread_mutex_timedlock(pthread_mutex_t*, const struct timespec*);
+int __real_pthread_mutex_clocklock(pthread_mutex_t*, clockid_t, const struct timespec*);
+int __real_pthread_cond_clockwait(pthread_cond_t*, pthread_mutex_t*, clockid_t, const struct timespec*);
+int __real_sem_clockwait(sem_t*, clockid_t, const struct timespec*);
+int __real_pthread_tryjoin_np(pthread_t, void**);
+int __real_pthread_timedjoin_np(pthread_t, void**, const struct timespec*);
+int __real_pthread_clockjoin_np(pthread_t, void**, clockid_t, const struct timespec*);
 }
 
 // ---- Sched.v : state ------------------------------------------------------------------------------
@@ -60,8 +78,8 @@ enum { C_IDLE, C_LOCK, C_TRY, C_UNLOCK, C_CONDWAIT, C_SIGNAL, C_BCAST, C_SEMWAIT
 enum { O_BLOCKED, O_PROGRESS, O_RETURN };
 static const long long NSQ = 1000000000LL;
 
-struct TStat { int kind; int c, m; long long rc; int has_dl; long long dsec, dnsec; long long done; };
-struct Call { int kind; int a, b; int has_dl; long long dsec, dnsec; };
+struct TStat { int kind; int c, m; long long rc; int has_dl; long long dsec, dnsec; long long done; int clk; };
+struct Call { int kind; int a, b; int has_dl; long long dsec, dnsec; int clk; };   // clk < 0: the primitive's own clock
 struct VMutex { int rec; int owner; int cnt; };
 struct VState {
   VMutex mtx[VS_NM];
@@ -80,6 +98,9 @@ static int nthr;
 static int dl_valid(long long nsec) { return 0 <= nsec && nsec < NSQ; }
 static int dl_expired(long long sec, long long nsec, long long nowv) { return (__int128)sec * NSQ + nsec <= (__int128)nowv; }
 static int dl_bad(const Call& c) { return c.has_dl && !dl_valid(c.dnsec); }
+static int wait_clock(int clk, int c) { return clk >= 0 ? clk : cond_clk[c]; }          // clock a condition wait measures against
+static int call_clock(const Call& c) { return c.clk >= 0 ? c.clk : CLOCK_REALTIME; }   // ... a timed lock / sem wait / join
+static int call_expired(const Call& c) { return dl_expired(c.dsec, c.dnsec, clock_of(call_clock(c), S.now)); }
 static int owned_by(int m, int t) { return S.mtx[m].owner == t; }
 static int is_free(int m) { return S.mtx[m].owner < 0; }
 static int acquire(int m, int t)
@@ -111,7 +132,12 @@ static int prim_step(int t, const Call& c, long long* r)
   *r = 0;
   switch(c.kind) {
   case C_IDLE: return O_RETURN;
-  case C_LOCK: return acquire(c.a, t) ? O_RETURN : O_BLOCKED;
+  case C_LOCK:
+    if(acquire(c.a, t)) return O_RETURN;
+    if(!c.has_dl) return O_BLOCKED;
+    if(dl_bad(c)) { *r = EINVAL; return O_RETURN; }            // timed lock (outside Sched.v)
+    if(call_expired(c)) { *r = ETIMEDOUT; return O_RETURN; }
+    return O_BLOCKED;
   case C_TRY: if(!acquire(c.a, t)) *r = EBUSY; return O_RETURN;
   case C_UNLOCK:
     if(owned_by(c.a, t)) release(c.a);
@@ -125,7 +151,7 @@ static int prim_step(int t, const Call& c, long long* r)
       if(dl_bad(c)) { *r = EINVAL; return O_RETURN; }
       release_all(c.b);
       S.q[c.a][S.qn[c.a]++] = t;
-      s.kind = K_CONDBLOCKED; s.c = c.a; s.m = c.b; s.has_dl = c.has_dl; s.dsec = c.dsec; s.dnsec = c.dnsec;
+      s.kind = K_CONDBLOCKED; s.c = c.a; s.m = c.b; s.has_dl = c.has_dl; s.dsec = c.dsec; s.dnsec = c.dnsec; s.clk = c.clk;
       return O_PROGRESS;
     }
     if(s.kind == K_WOKEN) {
@@ -158,6 +184,9 @@ static int prim_step(int t, const Call& c, long long* r)
     return O_RETURN;
   case C_JOIN:
     if(c.a >= 0 && c.a < VS_MAXT && S.st[c.a].kind == K_DONE) { *r = S.st[c.a].done; return O_RETURN; }
+    if(c.b) { *r = -EBUSY; return O_RETURN; }                   // pthread_tryjoin_np (outside Sched.v); errors are negative
+    if(c.has_dl && dl_bad(c)) { *r = -EINVAL; return O_RETURN; }
+    if(c.has_dl && call_expired(c)) { *r = -ETIMEDOUT; return O_RETURN; }
     return O_BLOCKED;
   }
   return O_BLOCKED;
@@ -171,12 +200,12 @@ static void prim_spurious(int t)
 static void prim_timeout(int t)
 {
   TStat& s = S.st[t];
-  if(s.kind == K_CONDBLOCKED && s.has_dl && dl_expired(s.dsec, s.dnsec, clock_of(cond_clk[s.c], S.now))) { remove_tid(s.c, t); s.kind = K_WOKEN; s.rc = ETIMEDOUT; }
+  if(s.kind == K_CONDBLOCKED && s.has_dl && dl_expired(s.dsec, s.dnsec, clock_of(wait_clock(s.clk, s.c), S.now))) { remove_tid(s.c, t); s.kind = K_WOKEN; s.rc = ETIMEDOUT; }
 }
 static void prim_timeout_steal(int t)
 {
   TStat& s = S.st[t];
-  if(s.kind == K_WOKEN && s.has_dl && dl_expired(s.dsec, s.dnsec, clock_of(cond_clk[s.c], S.now))) s.rc = ETIMEDOUT;
+  if(s.kind == K_WOKEN && s.has_dl && dl_expired(s.dsec, s.dnsec, clock_of(wait_clock(s.clk, s.c), S.now))) s.rc = ETIMEDOUT;
 }
 static void prim_clock(long long n) { if(n > S.now) S.now = n; }
 static void prim_rotate(int c)
@@ -275,6 +304,7 @@ static const InitRec* find_init(void* a, char kind)
 // ---- capture mode -------------------------------------------------------------------------------------
 static int capture_on, captured;
 static long long cap_sec, cap_nsec, got_sec, got_nsec;
+static int got_clk;                                // clock the captured abstime is measured against
 
 extern "C" {
 
@@ -350,7 +380,8 @@ void vs_move_tmo(int t)
   if(t < 0 || t >= VS_MAXT) return;
   if(S.st[t].kind == K_CONDBLOCKED) prim_timeout(t);
   else if(S.st[t].kind == K_RUN && pend[t].kind == C_SEMWAIT && pend[t].has_dl
-          && dl_valid(pend[t].dnsec) && dl_expired(pend[t].dsec, pend[t].dnsec, S.now)) { retv[t] = ETIMEDOUT; resume(t); }
+          && dl_valid(pend[t].dnsec) && call_expired(pend[t])) { retv[t] = ETIMEDOUT; resume(t); }
+  else if(S.st[t].kind == K_RUN && (pend[t].kind == C_LOCK || pend[t].kind == C_JOIN) && pend[t].has_dl) vs_move_run(t);   // timed lock / join: prim_step decides
 }
 void vs_move_steal(int t)
 {
@@ -363,7 +394,7 @@ void vs_move_rot(int c) { if(c >= 0 && c < VS_NC) prim_rotate(c); }
 void vs_idle(void)
 {
   int t = cur_tid;
-  Call c; memset(&c, 0, sizeof(c)); c.kind = C_IDLE;
+  Call c; memset(&c, 0, sizeof(c)); c.kind = C_IDLE; c.clk = -1;
   do_call(t, c);
 }
 int vs_self(void) { return cur_tid; }
@@ -388,16 +419,15 @@ int vs_runnable_or_blocked(int t) { return S.st[t].kind != K_NOTSTARTED && S.st[
 int vs_timed(int t, long long* sec, long long* nsec)
 {
   const TStat& s = S.st[t];
-  if(s.kind == K_CONDBLOCKED && s.has_dl) {
-    *sec = s.dsec; *nsec = s.dnsec;
-    if(cond_clk[s.c] != CLOCK_REALTIME) {          // the instant of `now` at which clock_of(...) reaches the deadline
-      __int128 tot = ((__int128)s.dsec * NSQ + s.dnsec) * 3;
-      *sec = (long long)(tot / NSQ); *nsec = (long long)(tot % NSQ);
-    }
-    return 1;
+  int clk = CLOCK_REALTIME, found = 0;
+  if(s.kind == K_CONDBLOCKED && s.has_dl) { *sec = s.dsec; *nsec = s.dnsec; clk = wait_clock(s.clk, s.c); found = 1; }
+  else if(s.kind == K_RUN && (pend[t].kind == C_SEMWAIT || pend[t].kind == C_LOCK || pend[t].kind == C_JOIN) && pend[t].has_dl && dl_valid(pend[t].dnsec))
+    { *sec = pend[t].dsec; *nsec = pend[t].dnsec; clk = call_clock(pend[t]); found = 1; }
+  if(found && clk != CLOCK_REALTIME) {             // the instant of `now` at which clock_of(...) reaches the deadline
+    __int128 tot = ((__int128)*sec * NSQ + *nsec) * 3;
+    *sec = (long long)(tot / NSQ); *nsec = (long long)(tot % NSQ);
   }
-  if(s.kind == K_RUN && pend[t].kind == C_SEMWAIT && pend[t].has_dl && dl_valid(pend[t].dnsec)) { *sec = pend[t].dsec; *nsec = pend[t].dnsec; return 1; }
-  return 0;
+  return found;
 }
 
 void vs_fmt_thread(int t, char* buf, int cap)
@@ -414,11 +444,12 @@ void vs_fmt_thread(int t, char* buf, int cap)
   }
   const Call& c = pend[t];
   dl[0] = 0;
-  if(c.has_dl) snprintf(dl, sizeof(dl), "@%lld.%lld", c.dsec, c.dnsec);
+  if(c.has_dl && c.clk >= 0) snprintf(dl, sizeof(dl), "@%lld.%lld%%%d", c.dsec, c.dnsec, c.clk);
+  else if(c.has_dl) snprintf(dl, sizeof(dl), "@%lld.%lld", c.dsec, c.dnsec);
   if(s.kind == K_NOTSTARTED || s.kind == K_DONE || s.kind == K_FAULT) strcpy(pd, "-");
   else switch(c.kind) {
   case C_IDLE: strcpy(pd, "idle"); break;
-  case C_LOCK: snprintf(pd, sizeof(pd), "lock%d", c.a); break;
+  case C_LOCK: snprintf(pd, sizeof(pd), "lock%d%s", c.a, dl); break;
   case C_TRY: snprintf(pd, sizeof(pd), "try%d", c.a); break;
   case C_UNLOCK: snprintf(pd, sizeof(pd), "unlock%d", c.a); break;
   case C_CONDWAIT: snprintf(pd, sizeof(pd), "cw%d.%d%s", c.a, c.b, dl); break;
@@ -428,7 +459,7 @@ void vs_fmt_thread(int t, char* buf, int cap)
   case C_SEMTRY: snprintf(pd, sizeof(pd), "st%d", c.a); break;
   case C_SEMPOST: snprintf(pd, sizeof(pd), "post%d", c.a); break;
   case C_CREATE: snprintf(pd, sizeof(pd), "create%d", c.a); break;
-  case C_JOIN: snprintf(pd, sizeof(pd), "join%d", c.a); break;
+  case C_JOIN: snprintf(pd, sizeof(pd), "%sjoin%d%s", c.b ? "t" : "", c.a, dl); break;
   default: strcpy(pd, "?"); break;
   }
   snprintf(buf, cap, "%s:%s:%s", stat, pd, vs_enabled(t) ? "e" : "b");
@@ -449,8 +480,9 @@ void vs_fmt_prims(char* buf, int cap)
   for(int c = 0; c < VS_NC; ++c) if(cond_clk[c] != CLOCK_REALTIME) n += snprintf(buf + n, cap - n, " clk%d=%d", c, cond_clk[c]);
 }
 
-void vs_capture(int on, long long sec, long long nsec) { capture_on = on; cap_sec = sec; cap_nsec = nsec; captured = 0; }
+void vs_capture(int on, long long sec, long long nsec) { capture_on = on; cap_sec = sec; cap_nsec = nsec; captured = 0; got_clk = CLOCK_REALTIME; }
 int vs_captured(long long* sec, long long* nsec) { *sec = got_sec; *nsec = got_nsec; return captured; }
+int vs_captured_clock(void) { return got_clk; }
 
 // ---- scripted clock (E5: the executable's definition interposes libc for the statically linked libnstd) ----
 int clock_gettime(clockid_t id, struct timespec* ts)
@@ -470,11 +502,12 @@ int clock_gettime(clockid_t id, struct timespec* ts)
 // ---- the wrapped primitives ---------------------------------------------------------------------------
 static Call mk(int kind, int a, int b, const struct timespec* ts)
 {
-  Call c; memset(&c, 0, sizeof(c)); c.kind = kind; c.a = a; c.b = b;
+  Call c; memset(&c, 0, sizeof(c)); c.kind = kind; c.a = a; c.b = b; c.clk = -1;
   if(ts) { c.has_dl = 1; c.dsec = (long long)ts->tv_sec; c.dnsec = (long long)ts->tv_nsec; }
   return c;
 }
 static void capture_ts(const struct timespec* ts) { got_sec = (long long)ts->tv_sec; got_nsec = (long long)ts->tv_nsec; captured = 1; }
+static Call mkc(int kind, int a, int b, const struct timespec* ts, clockid_t clk) { Call c = mk(kind, a, b, ts); c.clk = (int)clk; return c; }
 
 int __wrap_pthread_mutex_lock(pthread_mutex_t* m)
 {
@@ -482,6 +515,20 @@ int __wrap_pthread_mutex_lock(pthread_mutex_t* m)
   if(cur_tid < 0) return capture_on ? 0 : __real_pthread_mutex_lock(m);
   if((i = find_in(reg_m, VS_NM, m)) < 0) return __real_pthread_mutex_lock(m);
   return (int)do_call(cur_tid, mk(C_LOCK, i, 0, 0));
+}
+int __wrap_pthread_mutex_timedlock(pthread_mutex_t* m, const struct timespec* ts)
+{
+  int i;
+  if(cur_tid < 0) return capture_on ? 0 : __real_pthread_mutex_timedlock(m, ts);
+  if((i = find_in(reg_m, VS_NM, m)) < 0) return __real_pthread_mutex_timedlock(m, ts);
+  return (int)do_call(cur_tid, mk(C_LOCK, i, 0, ts));
+}
+int __wrap_pthread_mutex_clocklock(pthread_mutex_t* m, clockid_t clk, const struct timespec* ts)
+{
+  int i;
+  if(cur_tid < 0) return capture_on ? 0 : __real_pthread_mutex_clocklock(m, clk, ts);
+  if((i = find_in(reg_m, VS_NM, m)) < 0) return __real_pthread_mutex_clocklock(m, clk, ts);
+  return (int)do_call(cur_tid, mkc(C_LOCK, i, 0, ts, clk));
 }
 int __wrap_pthread_mutex_trylock(pthread_mutex_t* m)
 {
@@ -507,9 +554,19 @@ int __wrap_pthread_cond_wait(pthread_cond_t* c, pthread_mutex_t* m)
 int __wrap_pthread_cond_timedwait(pthread_cond_t* c, pthread_mutex_t* m, const struct timespec* ts)
 {
   int i, j;
-  if(cur_tid < 0) { if(capture_on) { capture_ts(ts); return ETIMEDOUT; } return __real_pthread_cond_timedwait(c, m, ts); }
+  if(cur_tid < 0) {
+    if(capture_on) { capture_ts(ts); const InitRec* ir = find_init(c, 'c'); if(ir) got_clk = ir->clk; return ETIMEDOUT; }
+    return __real_pthread_cond_timedwait(c, m, ts);
+  }
   if((i = find_in(reg_c, VS_NC, c)) < 0 || (j = find_in(reg_m, VS_NM, m)) < 0) return __real_pthread_cond_timedwait(c, m, ts);
   return (int)do_call(cur_tid, mk(C_CONDWAIT, i, j, ts));
+}
+int __wrap_pthread_cond_clockwait(pthread_cond_t* c, pthread_mutex_t* m, clockid_t clk, const struct timespec* ts)
+{
+  int i, j;
+  if(cur_tid < 0) { if(capture_on) { capture_ts(ts); got_clk = (int)clk; return ETIMEDOUT; } return __real_pthread_cond_clockwait(c, m, clk, ts); }
+  if((i = find_in(reg_c, VS_NC, c)) < 0 || (j = find_in(reg_m, VS_NM, m)) < 0) return __real_pthread_cond_clockwait(c, m, clk, ts);
+  return (int)do_call(cur_tid, mkc(C_CONDWAIT, i, j, ts, clk));
 }
 int __wrap_pthread_cond_signal(pthread_cond_t* c)
 {
@@ -568,6 +625,13 @@ int __wrap_sem_timedwait(sem_t* s, const struct timespec* ts)
   if((i = find_in(reg_s, VS_NS, s)) < 0) return __real_sem_timedwait(s, ts);
   return sem_result(do_call(cur_tid, mk(C_SEMWAIT, i, 0, ts)));
 }
+int __wrap_sem_clockwait(sem_t* s, clockid_t clk, const struct timespec* ts)
+{
+  int i;
+  if(cur_tid < 0) { if(capture_on) { capture_ts(ts); got_clk = (int)clk; errno = ETIMEDOUT; return -1; } return __real_sem_clockwait(s, clk, ts); }
+  if((i = find_in(reg_s, VS_NS, s)) < 0) return __real_sem_clockwait(s, clk, ts);
+  return sem_result(do_call(cur_tid, mkc(C_SEMWAIT, i, 0, ts, clk)));
+}
 int __wrap_sem_post(sem_t* s)
 {
   int i;
@@ -582,6 +646,9 @@ int __wrap_pthread_create(pthread_t* thr, const pthread_attr_t* attr, void* (*fn
   if(r != 0) return (int)r;
   spawn_real(ch, fn, arg);                       // the virtual thread is TRun; the real one waits for its first Run move
   *thr = real_thr[ch];
+  // second scheduling point (model: ThStartRet, pending call = yield): pthread_create has succeeded and has not yet
+  // returned to the creator - the child may be scheduled before the creator's code that follows the call
+  do_call(cur_tid, mk(C_IDLE, 0, 0, 0));
   return 0;
 }
 int __wrap_pthread_join(pthread_t thr, void** retval)
@@ -596,6 +663,39 @@ int __wrap_pthread_join(pthread_t thr, void** retval)
   if(!real_joined[ch]) { __real_pthread_join(real_thr[ch], 0); real_joined[ch] = 1; }
   if(retval) *retval = (void*)(intptr_t)r;
   return 0;
+}
+// try / timed / clock joins (outside Sched.v): the join that gives up; prim_step reports errors as negative values
+static int join_variant(pthread_t thr, void** retval, int is_try, const struct timespec* ts, int clk, int* handled)
+{
+  *handled = 0;
+  if(aborting) { *handled = 1; return 0; }
+  if(cur_tid < 0) return 0;
+  int ch = -1;
+  for(int i = 0; i < VS_MAXT; ++i) if(real_started[i] && !real_joined[i] && pthread_equal(real_thr[i], thr)) ch = i;
+  if(ch < 0) for(int i = 0; i < VS_MAXT; ++i) if(real_started[i] && pthread_equal(real_thr[i], thr)) ch = i;
+  if(ch < 0) return 0;
+  *handled = 1;
+  Call c = mk(C_JOIN, ch, is_try, ts); c.clk = clk;
+  long long r = do_call(cur_tid, c);
+  if(r < 0) return (int)-r;
+  if(!real_joined[ch]) { __real_pthread_join(real_thr[ch], 0); real_joined[ch] = 1; }
+  if(retval) *retval = (void*)(intptr_t)r;
+  return 0;
+}
+int __wrap_pthread_tryjoin_np(pthread_t thr, void** retval)
+{
+  int h, rc = join_variant(thr, retval, 1, 0, -1, &h);
+  return h ? rc : __real_pthread_tryjoin_np(thr, retval);
+}
+int __wrap_pthread_timedjoin_np(pthread_t thr, void** retval, const struct timespec* ts)
+{
+  int h, rc = join_variant(thr, retval, 0, ts, -1, &h);
+  return h ? rc : __real_pthread_timedjoin_np(thr, retval, ts);
+}
+int __wrap_pthread_clockjoin_np(pthread_t thr, void** retval, clockid_t clk, const struct timespec* ts)
+{
+  int h, rc = join_variant(thr, retval, 0, ts, (int)clk, &h);
+  return h ? rc : __real_pthread_clockjoin_np(thr, retval, clk, ts);
 }
 
 } // extern "C"
